@@ -67,6 +67,63 @@ def _compiler_driver():
     run.prologue = prologue
     return run
 
+def sql_scripts():
+    """SQL over the binary protocol: the REAL compiler.compile_sql_as_unit_group on every script of <= 3 transaction-control statements, from each of three starting
+    positions (outside a transaction / inside one / inside one with savepoint `a`).  Only the text -> SQLQueryUnit step (sql.compile_sql: native PostgreSQL parser) is replaced,
+    by units carrying the transaction action of each statement.  Reference: PostgreSQL -- savepoint commands outside a transaction block and unknown savepoints are rejected,
+    a script is rejected as a whole iff one of its statements is.  Returns (number of scripts, failure or None)."""
+    import types, itertools
+    from edb.server.compiler import compiler as C, dbstate as D, enums as E
+    C._get_config_val = lambda ctx, name: None
+    A = D.TxAction
+    STMTS = [('BEGIN', A.START, None), ('COMMIT', A.COMMIT, None), ('ROLLBACK', A.ROLLBACK, None), ('SAVEPOINT a', A.DECLARE_SAVEPOINT, 'a'), ('SAVEPOINT b', A.DECLARE_SAVEPOINT, 'b'),
+             ('RELEASE a', A.RELEASE_SAVEPOINT, 'a'), ('ROLLBACK TO a', A.ROLLBACK_TO_SAVEPOINT, 'a'), ('ROLLBACK TO b', A.ROLLBACK_TO_SAVEPOINT, 'b')]
+    def ref(in_tx, sps, script):
+        """PostgreSQL-style reference: returns (accepted, in_tx, savepoints)"""
+        for _, act, nm in script:
+            if act is A.START:
+                if in_tx: return False, None, None      # (the compiler's Transaction refuses START inside a transaction; PostgreSQL only warns -- such scripts are skipped)
+                in_tx = True
+            elif act is A.COMMIT:
+                if not in_tx: return False, in_tx, sps      # (COMMIT outside a transaction block: rejected by the compiler state, as for EdgeQL)
+                in_tx = False; sps = []
+            elif act is A.ROLLBACK: in_tx = False; sps = []
+            elif act is A.DECLARE_SAVEPOINT:
+                if not in_tx: return False, in_tx, sps
+                sps = sps + [nm]
+            else:
+                if not in_tx or nm not in sps: return False, in_tx, sps
+                k = len(sps) - 1 - sps[::-1].index(nm)
+                sps = sps[:k] if act is A.RELEASE_SAVEPOINT else sps[:k + 1]
+        return True, in_tx, sps
+    n = 0
+    for start in ('out', 'in', 'in+a'):
+        for ln in (1, 2, 3):
+            for script in itertools.product(STMTS, repeat=ln):
+                if any(act is A.START for _, act, _ in script) and start != 'out' and script[0][1] is A.START: continue
+                cs, _ = fresh_state(); in_tx = False; sps = []
+                if start != 'out': cs.start_tx(); in_tx = True
+                if start == 'in+a': cs.current_tx().declare_savepoint('a'); sps = ['a']
+                ok_ref, in_tx2, sps2 = ref(in_tx, sps, script)
+                if in_tx2 is None: continue
+                units = [D.SQLQueryUnit(query=t, orig_query=t, fe_settings=D.DEFAULT_SQL_FE_SETTINGS, tx_action=act, sp_name=nm) for t, act, nm in script]
+                C.sql.compile_sql = lambda *a, **k: (units, False)
+                ctx = types.SimpleNamespace(state=cs, compiler_state=types.SimpleNamespace(std_schema=s_schema.FlatSchema()), branch_name=None, role_name=None,
+                                            backend_runtime_params=None, protocol_version=(3, 0), implicit_limit=0, output_format=E.OutputFormat.BINARY)
+                n += 1
+                try: C.compile_sql_as_unit_group(ctx=ctx, source=None); ok = True
+                except Exception as e: ok = False; err = e
+                text = '; '.join(t for t, _, _ in script)
+                if ok != ok_ref:
+                    return n, dict(problem='SQL script %r from position %r: PostgreSQL %s it, the compiler %s it%s' % (text, start, 'accepts' if ok_ref else 'rejects', 'accepted' if ok else 'rejected',
+                                                                                                              '' if ok else ' (%r)' % (err,)))
+                if ok:
+                    tx = cs.current_tx(); got_in = not tx.is_implicit(); got_sps = [sp.name for sp in tx._savepoints.values()]
+                    if got_in != in_tx2 or got_sps != sps2:
+                        return n, dict(problem='after SQL script %r from position %r the compiler is %s a transaction with savepoints %r, expected %s with %r' % (
+                            text, start, 'inside' if got_in else 'outside', got_sps, 'inside' if in_tx2 else 'outside', sps2))
+    return n, None
+
 _DRIVER = []
 
 def run_history(hist, rnd, via_compiler=False):
@@ -195,6 +252,9 @@ def main():
         for _ in range(n_random):
             h = [('START',)] + [rnd.choice(ALPHABET) for _ in range(rnd.randint(2, max_len))]
             if go(h): break
+    if not res['failure']:
+        res['sql_scripts'], f = sql_scripts()
+        if f: res['failure'] = dict(history=[], via='compiler.compile_sql_as_unit_group', **f)
     json.dump(res, open(out, 'w'), indent=1)
 
 if __name__ == '__main__':
